@@ -154,6 +154,9 @@ def cases(tier, seed):
                                "order": order, "ctx": ctx, "data": [7.5, 1.0, 9.0, 2.5]}
     for c in history_cases(tier, seed):
         yield c
+    for via in ("call", "sequence", "compose-then-call"):
+        for order in (0, 1):
+            yield {"k": "sharedtail", "via": via, "order": order}
     for i in range(NCASES[tier]):
         rng = gen.rng_for(seed, "C14", i)
         types = list(TYPES)
@@ -983,10 +986,50 @@ def run_getter_fails(r, obs):
              "%r instead of failing" % (r["form"], r["n"], r["pos"], r["exc"], r["via"], res))
 
 
+def run_sharedtail(r, obs):
+    """One variable object applied after different upstream variables that have the same type
+    (x after positron, then x after neutron - both particles): each result describes its own
+    chain, exactly as with a variable object of its own."""
+    import lena.core
+    import lena.variables
+    obs.nontrivial = True
+    V = lena.variables.Variable
+
+    def heads():
+        hs = [V("positron", lambda d: d, type="particle", latex_name="e^+", charge=1),
+              V("neutron", lambda d: d, type="particle", latex_name="n", mass=939.6),
+              V("muon", lambda d: d, type="particle", latex_name="mu")]
+        return hs[::-1] if r["order"] else hs
+
+    def tail():
+        return V("x", lambda d: d + 1, type="coordinate", unit="mm")
+    shared = tail()
+
+    def apply(head, x, value):
+        if r["via"] == "call":
+            return x(head(value))
+        if r["via"] == "sequence":
+            out = list(lena.core.Sequence(head, x).run(iter([value])))
+            return out[0] if len(out) == 1 else out
+        return x(lena.variables.Compose(head)(value))
+    for rep in range(2):
+        for head_shared, head_own in zip(heads(), heads()):
+            got = apply(head_shared, shared, (1, {"i": rep}))
+            exp = apply(head_own, tail(), (1, {"i": rep}))
+            obs.count("compose_vs_sequence_compared")
+            obs.check(freeze(got) == freeze(exp),
+                      "variable-remembers-an-earlier-upstream-variable",
+                      "x applied after %s (via %s, the same x object was applied after other "
+                      "particles before): %r; an x of its own gives %r"
+                      % (head_own.name, r["via"], got, exp))
+
+
 def run_case(r, obs):
     del CONSTRUCTION_CHANGES[:]
     try:
-        if r["k"] == "chain":
+        if r["k"] == "sharedtail":
+            run_sharedtail(r, obs)
+        elif r["k"] == "chain":
             run_chain(r, obs)
         elif r["k"] == "shapes":
             run_shapes(r, obs)
@@ -1027,3 +1070,5 @@ RULE += (' Added: tuple-valued attributes holding lists / dicts; after every app
 RULE += (' Added: a 2-tuple with a dict second as the data a Combine receives (after a getter, '
          'as a record with its own context, in a Sequence, in another Combine).')
 RULE += (' Added: compositions nested behind variables without a type (corner cases).')
+RULE += (' Added: one variable object applied after different upstream variables of one type, '
+         'against a variable object of its own.')
